@@ -58,7 +58,18 @@ Definition flow_ok (fixed : bool) (f : flow) : bool :=
   (sum_deps (counted fixed) true (fl_deps f) <=? MAX_DEP_IN_COUNT) &&
   (sum_deps (counted fixed) false (fl_deps f) <=? MAX_DEP_OUT_COUNT).
 
+(* class-level limit: every dependency of a task class gets an index (inputs and outputs numbered
+   separately, one index per dependency whatever its guard) that must fit the runtime bit masks:
+   29 bits for inputs (the dependency word minus its flag bits), 24 bits for outputs (the action
+   mask).  jdf_flatten_function rejects a class as soon as the running count reaches the width
+   ("(1U << n) > mask"), i.e. it accepts at most 28 inputs and 23 outputs: one less than fits. *)
+Definition MASK_IN_BITS := 29.
+Definition MASK_OUT_BITS := 24.
+Definition class_count (dir : bool) (f : func) : nat :=
+  fold_right (fun fl acc => sum_deps (fun _ => 1) dir (fl_deps fl) + acc) 0 (fn_flows f).
+
 Definition func_ok (fixed : bool) (f : func) : bool :=
+  (class_count true f <? MASK_IN_BITS) && (class_count false f <? MASK_OUT_BITS) &&
   forallb (flow_ok fixed) (fn_flows f) &&
   (count_flows reads (fn_flows f) <=? MAX_PARAM_COUNT) &&
   (count_flows writes (fn_flows f) <=? MAX_PARAM_COUNT) &&
@@ -78,6 +89,7 @@ Definition flow_within (f : flow) : Prop :=
   sum_deps emitted false (fl_deps f) <= MAX_DEP_OUT_COUNT.
 Definition func_within (f : func) : Prop :=
   (forall fl, In fl (fn_flows f) -> flow_within fl) /\
+  class_count true f <= MASK_IN_BITS /\ class_count false f <= MASK_OUT_BITS /\   (* dependency indices fit the masks *)
   length (fn_flows f) <= MAX_PARAM_COUNT /\               (* .in[] / .out[] / .data[] hold at most all flows *)
   fn_locals f + ldef_needed f <= MAX_LOCAL_COUNT.         (* named locals + every ldef[] slot the code indexes *)
 Definition within_limits (p : program) : Prop := forall f, In f (pg_funcs p) -> func_within f.
@@ -86,5 +98,6 @@ Definition within_limits (p : program) : Prop := forall f, In f (pg_funcs p) -> 
 Definition flow_withinb (f : flow) : bool :=
   (sum_deps emitted true (fl_deps f) <=? MAX_DEP_IN_COUNT) && (sum_deps emitted false (fl_deps f) <=? MAX_DEP_OUT_COUNT).
 Definition within_limitsb (p : program) : bool :=
-  forallb (fun f => forallb flow_withinb (fn_flows f) && (length (fn_flows f) <=? MAX_PARAM_COUNT)
+  forallb (fun f => forallb flow_withinb (fn_flows f) && (class_count true f <=? MASK_IN_BITS)
+                    && (class_count false f <=? MASK_OUT_BITS) && (length (fn_flows f) <=? MAX_PARAM_COUNT)
                     && (fn_locals f + ldef_needed f <=? MAX_LOCAL_COUNT)) (pg_funcs p).
